@@ -419,47 +419,49 @@ impl StrExt for str {
     }
 
     fn contains_word(&self, pattern: &str) -> bool {
-        if self == pattern {
-            return true;
-        }
         if pattern.is_empty() {
-            return false;
+            return self.is_empty();
         }
 
-        match self.find(pattern) {
-            Some(start) => {
-                let end = start + pattern.len();
+        // The part of the value that is left to look at.
+        let mut value = self;
 
-                // Look if the match has word boundaries.
-                let word_boundary_start = !self.char_at(start).is_word_char()
-                    || !self.find_prev_char(start).is_some_and(|c| c.is_word_char());
-
-                if word_boundary_start {
-                    let word_boundary_end = end == self.len()
-                        || !self.find_prev_char(end).unwrap().is_word_char()
-                        || !self.char_at(end).is_word_char();
-
-                    if word_boundary_end {
-                        return true;
-                    }
-                }
-
-                // Find next word.
-                let non_word_str = &self[start..];
-                let non_word = match non_word_str.find(|c: char| !c.is_word_char()) {
-                    Some(pos) => pos,
-                    None => return false,
-                };
-
-                let word_str = &non_word_str[non_word..];
-                let word = match word_str.find(|c: char| c.is_word_char()) {
-                    Some(pos) => pos,
-                    None => return false,
-                };
-
-                word_str[word..].contains_word(pattern)
+        loop {
+            if value == pattern {
+                return true;
             }
-            None => false,
+
+            let Some(start) = value.find(pattern) else {
+                return false;
+            };
+            let end = start + pattern.len();
+
+            // Look if the match has word boundaries.
+            let word_boundary_start = !value.char_at(start).is_word_char()
+                || !value.find_prev_char(start).is_some_and(|c| c.is_word_char());
+
+            if word_boundary_start {
+                let word_boundary_end = end == value.len()
+                    || !value.find_prev_char(end).unwrap().is_word_char()
+                    || !value.char_at(end).is_word_char();
+
+                if word_boundary_end {
+                    return true;
+                }
+            }
+
+            // Find next word.
+            let non_word_str = &value[start..];
+            let Some(non_word) = non_word_str.find(|c: char| !c.is_word_char()) else {
+                return false;
+            };
+
+            let word_str = &non_word_str[non_word..];
+            let Some(word) = word_str.find(|c: char| c.is_word_char()) else {
+                return false;
+            };
+
+            value = &word_str[word..];
         }
     }
 
